@@ -93,9 +93,14 @@ func c12BuildLate(n, li, lj int) *c12Net {
 	if li >= 0 {
 		nw.link[li][lj], nw.link[lj][li] = false, false
 	}
+	// hop limit: unlimited, or exactly the largest distance a connected topology of n agents can have
+	cfg := DefaultFloodConfig()
+	if verif_nondet_bool() {
+		cfg.MaxHops = n - 1
+	}
 	for i := 0; i < n; i++ {
 		nw.rm[i] = routing.NewManager(fID(i))
-		nw.fl[i] = NewFlooder(DefaultFloodConfig(), fID(i), nw.rm[i], &c12Sender{net: nw, me: i})
+		nw.fl[i] = NewFlooder(cfg, fID(i), nw.rm[i], &c12Sender{net: nw, me: i})
 	}
 	return nw
 }
